@@ -16,8 +16,8 @@ ASSUMPTIONS = ['stub network = Conv2d(kernel (H,4), stride 4) with a blank bias:
                'float32 logits compared within 1e-4; sparse entries with posterior within +-20 % of 1e-4 are not judged',
                'for truncated lines (padded batch wider than 480*batch) only order-independence and the window start are required']
 N = {'quick': 160, 'thorough': 8000}
-CLASSES = ['mixed', 'mixed', 'equal_widths', 'tiny', 'long', 'page_ocr', 'empty_or_single', 'mixed', 'extreme_logits', 'masked_alphabet', 'embedding', 'page_ocr_many']
-REQUIRED = ['masked_alphabet_lists', 'embedding_lists', 'page_ocr_pages_over_512_lines', 'lists', 'lines_checked', 'window_checked', 'dense_compared', 'sparse_compared', 'tight_compared', 'nologits_checked', 'permutations_checked', 'truncated_lines', 'page_ocr_lines', 'multi_batch_lists', 'extreme_logit_lists']
+CLASSES = ['mixed', 'mixed', 'equal_widths', 'tiny', 'long', 'page_ocr', 'empty_or_single', 'mixed', 'extreme_logits', 'masked_alphabet', 'embedding', 'page_ocr_many', 'after_fault']
+REQUIRED = ['calls_after_an_injected_network_fault', 'page_ocr_lines_recognised_again_after_recropping', 'masked_alphabet_lists', 'embedding_lists', 'page_ocr_pages_over_512_lines', 'lists', 'lines_checked', 'window_checked', 'dense_compared', 'sparse_compared', 'tight_compared', 'nologits_checked', 'permutations_checked', 'truncated_lines', 'page_ocr_lines', 'multi_batch_lists', 'extreme_logit_lists']
 H = 16
 CHARS = list('abcdefgh ')
 
@@ -151,6 +151,27 @@ def check(case, mon, ctx):
         mon.mark_nontrivial()
     if case['cls'] in ('page_ocr', 'page_ocr_many'):
         return check_page_ocr(case, lines, mon, ctx)
+    if case['cls'] == 'after_fault' and k >= 2:
+        # fault injection: the network fails once (an out-of-memory RuntimeError) during an earlier call on this long-lived engine;
+        # whatever that call does, later calls must recognise every line as before
+        state = {'armed': True}
+        orig_run = eng.run_ocr
+
+        def failing(batch):
+            if state['armed'] and batch.shape[0] >= 2:
+                state['armed'] = False
+                raise RuntimeError('CUDA out of memory (injected)')
+            return orig_run(batch)
+        eng.run_ocr = failing
+        try:
+            with contextlib.redirect_stdout(io.StringIO()):
+                eng.process_lines(list(lines), **kw)
+        except RuntimeError:
+            pass
+        finally:
+            del eng.run_ocr
+        if not state['armed']:
+            mon.count('calls_after_an_injected_network_fault')
     with contextlib.redirect_stdout(io.StringIO()):
         try:
             tr, lg, co = eng.process_lines(list(lines), **kw)
@@ -279,3 +300,25 @@ def check_page_ocr(case, lines, mon, ctx):
                     mon.violation('logits-are-the-lines-own', dict(wit, via='PageOCR'))
         if list(line.characters) != list(eng.characters):
             mon.violation('character-table-attached', {'line': line.id})
+    # history on the page object: some lines are cropped again (other pixels, other widths) and the page is recognised again by the same PageOCR
+    if len(lines) > 64 or not lines:
+        return
+    rng = np.random.default_rng(case['perm_seed'])
+    changed = {}
+    for line in pl.lines_iterator():
+        if rng.random() < 0.5:
+            w2 = int(rng.integers(1, 400))
+            line.crop = rng.integers(1, 256, size=(H, w2, 3)).astype(np.uint8)
+            changed[line.id] = line.crop
+    with contextlib.redirect_stdout(io.StringIO()):
+        ctx.page_ocr.process_page(None, pl)
+    for line in pl.lines_iterator():
+        if line.id not in changed:
+            continue
+        mon.count('page_ocr_lines_recognised_again_after_recropping')
+        img2 = changed[line.id]
+        ref2 = alone(ctx, img2)
+        a2, b2 = 8, (32 + img2.shape[1]) // 4
+        if line.transcription != collapse_text(ref2, eng.characters) or list(line.logit_coords) != [a2, b2]:
+            mon.violation('transcription-is-the-lines-own', {'via': 'PageOCR on a page that was recognised before and partly re-cropped', 'line': line.id, 'width_now': int(img2.shape[1]),
+                          'got': line.transcription, 'expected': collapse_text(ref2, eng.characters), 'coords': line.logit_coords, 'expected_coords': [a2, b2]})
